@@ -1,5 +1,6 @@
 pub mod alloc;
 pub mod rng;
+pub mod vclock;
 
 use serde_json::{json, Map, Value};
 use std::collections::{BTreeMap, HashSet};
